@@ -27,6 +27,9 @@ def main(argv):
         for c in cs:
             c['cfg']['fac'] = origin
         cases += cs
+    suspects, breadth = SR.leg_a_suspects(rng, 100 if tier == 'quick' else 1000, want=None)
+    rep.extra['cases_compared_with_the_model_only'] = breadth
+    cases += suspects
     io, mo, plans = SR.tie_and_plans(cases)
     wd = legb.Workdir()
     nv = 0
